@@ -347,7 +347,30 @@ def run(ctx):
                                      "(failed validation / empty retired list) in the implementation trace"})
         if not ok or ctx.failures:
             search(ctx, exe)
+    client_layer(ctx)
     core.finish(ctx, extra_assumptions=ASSUME)
+
+
+CLIENT_THEOREMS = ["mpmc_no_deref_reclaimed", "mpmc_hp_safe", "mpmc_aba_safe"]
+
+
+def client_layer(ctx):
+    """'no structure built on it dereferences a reclaimed node': the structure built on the hazard-pointer API in this
+    repository is include/mpmc_fifo.h; its theorems (Properties_C13.v) and its lock-step correspondence (real
+    mpmc_fifo.h + hazard_pointer.c against coq/MpmcHp.v, with the reclaimed-node oracle) are obligations of C14 too."""
+    from vf.props import C13
+    core.coq_property(ctx, "Properties_C13.v", CLIENT_THEOREMS)
+    exe = C13.build(ctx)
+    if not exe:
+        return
+    dist = ctx.coverage.get("case_distribution")
+    nf = len(ctx.failures)
+    cases = C13.corpus(ctx) + C13.gen_cases(ctx, ctx.tier)
+    ctx.coverage["client_case_distribution"] = ctx.coverage.get("case_distribution")
+    ctx.coverage["case_distribution"] = dist
+    ok = core.correspond(ctx, "mpmc", "mpmchp", exe, cases, C13.monitor)
+    if (not ok or len(ctx.failures) > nf) and not ctx.violations:
+        C13.search(ctx, exe)
 
 
 def search(ctx, exe):
@@ -379,6 +402,9 @@ def corpus(ctx):
 
 
 def replay(ctx, payload):
+    if payload.get("harness") == "mpmc":
+        from vf.props import C13
+        return C13.replay(ctx, payload)
     exe = build(ctx)
     c = payload.get("case")
     if not exe or not c:
